@@ -17,7 +17,7 @@ Notation dom := (dom DC).
    values, which is what the kernel's heterogeneous uses of "equals" need), and
    every constant by an element of the domain of its type. *)
 Record Standard (IC : string -> sty -> V) : Prop := {
-  st_ok : val_ok DC IC;
+  st_ok : ic_ok DC IC;
   st_eq : forall a b, IC "equals" (SF a (SF b SB)) = tab2 DC a b (fun x y => VB (V_eqb x y));
   st_imp : IC "implies" (SF SB (SF SB SB)) = tab2 DC SB SB (fun x y => VB (implb (vb x) (vb y)));
   st_all : forall a, IC "all" (SF (SF a SB) SB) =
@@ -28,15 +28,15 @@ Variable IC : string -> sty -> V.
 Hypothesis Hstd : Standard IC.
 
 (* truth of a sequent in one model / validity in all models *)
-Definition models (thT thS : string -> sty) (sigV sigS : string -> sty -> V) (th : thm) : Prop :=
+Definition models (thT thS : string -> sty) (sigV sigS : string -> ty -> V) (th : thm) : Prop :=
   (forall h, In h (hyps th) -> holds DC thT thS IC sigV sigS h = true) ->
   holds DC thT thS IC sigV sigS (prop th) = true.
 
 Definition valid (th : thm) : Prop :=
-  forall thT thS sigV sigS, val_ok DC sigV -> val_ok DC sigS -> models thT thS sigV sigS th.
+  forall thT thS sigV sigS, val_ok DC thT thS sigV -> val_ok DC thT thS sigS -> models thT thS sigV sigS th.
 
 Lemma valid_thm_holds : forall th, valid th <->
-  forall thT thS sigV sigS, val_ok DC sigV -> val_ok DC sigS -> thm_holds DC thT thS IC sigV sigS th = true.
+  forall thT thS sigV sigS, val_ok DC thT thS sigV -> val_ok DC thT thS sigS -> thm_holds DC thT thS IC sigV sigS th = true.
 Proof.
   intros th. unfold valid, models, thm_holds. split; intros H thT thS sigV sigS HV HS.
   - destruct (forallb (holds DC thT thS IC sigV sigS) (hyps th)) eqn:E; [|reflexivity]. cbn.
@@ -103,9 +103,9 @@ Qed.
 
 Section InModel.
 Variable thT thS : string -> sty.
-Variable sigV sigS : string -> sty -> V.
-Hypothesis sigV_ok : val_ok DC sigV.
-Hypothesis sigS_ok : val_ok DC sigS.
+Variable sigV sigS : string -> ty -> V.
+Hypothesis sigV_ok : val_ok DC thT thS sigV.
+Hypothesis sigS_ok : val_ok DC thT thS sigS.
 Notation tysem := (tysem thT thS).
 Notation eval := (eval DC thT thS IC sigV sigS).
 Notation holds := (holds DC thT thS IC sigV sigS).
@@ -116,6 +116,9 @@ Lemma eval_ty : forall t bd T env, checked_get_type_rec t bd = Some T -> env_ok 
 Proof. intros. eapply eval_typed; eauto. apply (st_ok _ Hstd). Qed.
 
 Lemma tysem_bool : tysem BoolT = SB.
+Proof. reflexivity. Qed.
+
+Lemma tysem_TFun : forall A B, tysem (TFun A B) = SF (tysem A) (tysem B).
 Proof. reflexivity. Qed.
 
 Lemma in_dom_SB : forall v, In v (dom SB) -> v = VB true \/ v = VB false.
@@ -197,6 +200,35 @@ Proof. intros s t H. unfold Sem.holds. rewrite (eval_alpha DC thT thS IC sigV si
 Lemma holds_mem : forall h l, mem_tm h l = true -> (forall x, In x l -> holds x = true) -> holds h = true.
 Proof.
   intros h l Hm Hl. apply mem_tm_spec in Hm. destruct Hm as [x [Hin He]]. rewrite (holds_alpha _ _ He). auto.
+Qed.
+
+Lemma vb_eqb : forall v, vb v = V_eqb v (VB true).
+Proof. destruct v as [[]| | |]; reflexivity. Qed.
+
+Lemma forallb_ext_in : forall (A : Type) (f g : A -> bool) l, (forall x, In x l -> f x = g x) -> forallb f l = forallb g l.
+Proof.
+  intros A f g l. induction l as [|x l IH]; intro H; [reflexivity|]. cbn [forallb].
+  rewrite (H x (or_introl eq_refl)), IH; [reflexivity|]. intros y Hy. apply H. right. exact Hy.
+Qed.
+
+(* the universal quantifier at its declared type *)
+Lemma holds_all : forall x U b,
+  checked_get_type (Comb (Const "all" (TFun (TFun U BoolT) BoolT)) (Abs x U b)) = Some BoolT ->
+  holds (Comb (Const "all" (TFun (TFun U BoolT) BoolT)) (Abs x U b)) =
+  forallb (fun v => V_eqb (snd (eval [(tysem U, v)] b)) (VB true)) (dom (tysem U)).
+Proof.
+  intros x U b H. unfold checked_get_type in H.
+  destruct (eval_comb _ _ _ _ _ H env_ok_nil) as [Ta [Habs [_ E]]].
+  pose proof H as H'. apply checked_comb in H'. destruct H' as [Ta' [m [rest [Hc [_ Ha']]]]].
+  rewrite Habs in Ha'. inversion Ha'; subst Ta'. cbn [checked_get_type_rec] in Hc. unfold TFun in Hc. inversion Hc; subst Ta. clear Hc Ha'.
+  destruct (eval_ty _ _ _ _ Habs env_ok_nil) as [_ Hv].
+  unfold Sem.holds. rewrite E. cbn [snd]. cbn [Sem.eval snd].
+  change (TConst "fun" [U; BoolT]) with (TFun U BoolT) in *.
+  rewrite !tysem_TFun in *. rewrite !tysem_bool in *. rewrite (st_all _ Hstd).
+  unfold tab1. rewrite (app_tabulate DC (SF (tysem U) SB) _ _ Hv).
+  cbn [V_eqb]. cbn [Sem.eval snd]. rewrite map_map.
+  match goal with |- Bool.eqb ?a true = _ => replace (Bool.eqb a true) with a by (destruct a; reflexivity) end.
+  apply forallb_ext_in. intros v Hin. unfold vapp. rewrite (app_tabulate DC (tysem U) _ _ Hin). apply vb_eqb.
 Qed.
 
 End InModel.
@@ -391,6 +423,180 @@ Proof.
   cbn [snd]. rewrite map_map. rewrite (app_tabulate DC (tysem thT thS Ta) (fun v => snd (Sem.eval DC thT thS IC sigV sigS [(tysem thT thS Ta, v)] b)) va Ha2)
     by idtac.
   reflexivity.
+Qed.
+
+(* subst_type: a sequent valid under every type assignment stays valid after
+   instantiating schematic type variables *)
+Lemma sound_subst_type : forall s th th', valid th -> r_subst_type s th = Some th' -> valid th'.
+Proof.
+  intros s th th' V H. inversion H; subst th'. clear H.
+  intros thT thS sigV sigS HV HS Hh. cbn [prop hyps] in *.
+  unfold Sem.holds in *. rewrite eval_subst_type.
+  apply (V thT (thS_subst thT thS s) (fun n T => sigV n (ty_subst s T)) (fun n T => sigS n (ty_subst s T))).
+  - intros n T. rewrite <- tysem_subst. apply HV.
+  - intros n T. rewrite <- tysem_subst. apply HS.
+  - intros h Hin. specialize (Hh _ (in_map (tm_subst_type s) _ _ Hin)). rewrite eval_subst_type in Hh. exact Hh.
+Qed.
+
+(* combination needs "equals" of the second premise at its declared type (both
+   sides of x = y of one type); see the remark at equal_intr *)
+Lemma wf_equals_args : forall T x y, wf_consts (Comb (Comb (Const "equals" T) x) y) = true ->
+  checked_get_type (Comb (Comb (Const "equals" T) x) y) = Some BoolT ->
+  exists A, checked_get_type x = Some A /\ checked_get_type y = Some A.
+Proof.
+  intros T x y Hw H. cbn in Hw. apply andb_true_iff in Hw. destruct Hw as [Hw _]. apply andb_true_iff in Hw.
+  destruct Hw as [Hw _]. destruct T as [| |n [|A rest]]; try discriminate. apply ty_eqb_eq in Hw.
+  unfold checked_get_type in *.
+  apply checked_comb in H. destruct H as [Ty [n1 [r1 [H [Hn1 Hy]]]]].
+  apply checked_comb in H. destruct H as [Tx [n2 [r2 [H [Hn2 Hx]]]]].
+  cbn [checked_get_type_rec] in H. rewrite Hw in H. unfold TFun in H. inversion H; subst. eauto.
+Qed.
+
+Lemma sound_combination : forall th1 th2 th', wt th1 -> wt th2 -> wfc th2 -> valid th1 -> valid th2 ->
+  r_combination th1 th2 = Some th' -> wt th' -> valid th'.
+Proof.
+  intros th1 th2 th' W1 W2 C2 V1 V2 H W'. unfold r_combination in H.
+  destruct (dest_binop "equals" (prop th1)) as [[f g]|] eqn:E1; [|discriminate].
+  destruct (dest_binop "equals" (prop th2)) as [[x y]|] eqn:E2; [|discriminate].
+  destruct (get_type f) as [Tf|]; [|discriminate]. destruct (get_type x) as [Tx|]; [|discriminate].
+  destruct (is_fun_name Tf); [|discriminate]. destruct Tf as [| |nf [|d rest]]; try discriminate.
+  destruct (ty_eqb d Tx); [|discriminate].
+  destruct (mk_eq (Comb f x) (Comb g y)) as [p|] eqn:Ep; [|discriminate]. inversion H; subst th'. clear H.
+  apply dest_binop_eq in E1. destruct E1 as [T1 E1]. apply dest_binop_eq in E2. destruct E2 as [T2 E2].
+  apply mk_eq_shape in Ep. destruct Ep as [T' ->].
+  intros thT thS sigV sigS HV HS Hh. cbn [prop hyps] in *.
+  destruct (hyps_merge _ _ _ _ _ _ Hh) as [Hh1 Hh2].
+  pose proof (V1 thT thS sigV sigS HV HS Hh1) as P1. pose proof (V2 thT thS sigV sigS HV HS Hh2) as P2.
+  pose proof (wt_prop _ W1) as Tp1. pose proof (wt_prop _ W2) as Tp2. pose proof (wt_prop _ W') as Tp3. cbn [prop] in Tp3.
+  pose proof (wfc_prop _ C2) as Cp2.
+  rewrite E1 in P1, Tp1. rewrite E2 in P2, Tp2, Cp2.
+  rewrite (holds_eq thT thS sigV sigS HV HS _ _ _ Tp1) in P1. rewrite (holds_eq thT thS sigV sigS HV HS _ _ _ Tp2) in P2.
+  rewrite (holds_eq thT thS sigV sigS HV HS _ _ _ Tp3).
+  apply V_eqb_eq in P1. apply V_eqb_eq in P2.
+  destruct (wf_equals_args _ _ _ Cp2 Tp2) as [A [HxA HyA]].
+  destruct (eval_binop thT thS sigV sigS HV HS _ _ _ _ _ _ _ Tp3 (env_ok_nil thT thS)) as [Tfx [Tgy [Hfx [Hgy _]]]].
+  destruct (eval_comb thT thS sigV sigS HV HS _ _ _ _ _ Hfx (env_ok_nil thT thS)) as [Ta [Hxa [_ Efx]]].
+  destruct (eval_comb thT thS sigV sigS HV HS _ _ _ _ _ Hgy (env_ok_nil thT thS)) as [Ta' [Hya [_ Egy]]].
+  unfold checked_get_type in HxA, HyA. rewrite HxA in Hxa. rewrite HyA in Hya. inversion Hxa; inversion Hya; subst Ta Ta'.
+  rewrite Efx, Egy. cbn [snd]. rewrite P1, P2. apply V_eqb_refl.
+Qed.
+
+(* forall_intr and abstraction: the abstracted variable is read from the
+   environment; it does not occur in the hypotheses, so they do not notice.
+   Needs the repaired occurs_var (SVar treated like Var). *)
+Lemma hyps_no_occ : forall x l, existsb (fun h => occurs_var true h x) l = false ->
+  forall h, In h l -> occurs_var true h x = false.
+Proof.
+  intros x l H h Hin. destruct (occurs_var true h x) eqn:E; [|reflexivity].
+  assert (existsb (fun h => occurs_var true h x) l = true) by (apply existsb_exists; exists h; auto). congruence.
+Qed.
+
+Lemma sound_forall_intr : forall x th th', fx_occurs_svar fx = true -> wt th -> valid th ->
+  r_forall_intr fx x th = Some th' -> wt th' -> valid th'.
+Proof.
+  intros x th th' Hfx W V H W'. unfold r_forall_intr in H. rewrite Hfx in H.
+  destruct (existsb (fun h => occurs_var true h x) (hyps th)) eqn:Eo; [discriminate|].
+  destruct (is_var_or_svar x) eqn:Ev; [|discriminate]. cbn [negb] in H.
+  destruct (mk_forall x (prop th)) as [p|] eqn:Ep; [|discriminate]. inversion H; subst th'. clear H.
+  unfold mk_forall, mk_lambda in Ep. pose proof (wt_prop _ W) as Tp. pose proof (wt_prop _ W') as Tp'. cbn [prop] in Tp'.
+  pose proof (checked_closed _ _ _ Tp) as Hcl. cbn [Datatypes.length] in Hcl.
+  intros thT thS sigV sigS HV HS Hh. cbn [prop hyps] in *.
+  destruct x as [n T|n T| | | |]; try discriminate; cbn [var_name_ty] in Ep; unfold abstract_over in Ep; cbn [is_var_or_svar] in Ep.
+  - destruct (abstract_over_rec (prop th) 0 (SVar n T)) as [b|] eqn:Ea; [|discriminate]. inversion Ep; subst p. clear Ep.
+    unfold forall_const in *. rewrite (holds_all thT thS sigV sigS HV HS _ _ _ Tp').
+    apply forallb_forall. intros v Hv.
+    pose proof (abstract_over_svar_sem DC thT thS IC n T v sigV sigS _ 0 _ [] [] Ea Hcl eq_refl) as Hs. cbn [Datatypes.app] in Hs. rewrite Hs.
+    apply (V thT thS sigV (upd sigS n T v) HV (val_ok_upd DC thT thS _ _ _ _ HS Hv)).
+    intros h Hin. unfold Sem.holds. rewrite (eval_upd_svar DC thT thS IC n T v sigV sigS h [] (hyps_no_occ _ _ Eo h Hin)).
+    apply Hh. exact Hin.
+  - destruct (abstract_over_rec (prop th) 0 (Var n T)) as [b|] eqn:Ea; [|discriminate]. inversion Ep; subst p. clear Ep.
+    unfold forall_const in *. rewrite (holds_all thT thS sigV sigS HV HS _ _ _ Tp').
+    apply forallb_forall. intros v Hv.
+    pose proof (abstract_over_var_sem DC thT thS IC n T v sigV sigS _ 0 _ [] [] Ea Hcl eq_refl) as Hs. cbn [Datatypes.app] in Hs. rewrite Hs.
+    apply (V thT thS (upd sigV n T v) sigS (val_ok_upd DC thT thS _ _ _ _ HV Hv) HS).
+    intros h Hin. unfold Sem.holds. rewrite (eval_upd_var DC thT thS IC n T v sigV sigS h [] (hyps_no_occ _ _ Eo h Hin)).
+    apply Hh. exact Hin.
+Qed.
+
+Lemma sound_abstraction : forall x th th', fx_occurs_svar fx = true -> wt th -> valid th ->
+  r_abstraction fx x th = Some th' -> wt th' -> valid th'.
+Proof.
+  intros x th th' Hfx W V H W'. unfold r_abstraction in H. rewrite Hfx in H.
+  destruct (existsb (fun h => occurs_var true h x) (hyps th)) eqn:Eo; [discriminate|].
+  destruct (dest_binop "equals" (prop th)) as [[t1 t2]|] eqn:E; [|discriminate].
+  destruct (mk_lambda x t1) as [l1|] eqn:E1; [|discriminate]. destruct (mk_lambda x t2) as [l2|] eqn:E2; [|discriminate].
+  destruct (mk_eq l1 l2) as [p|] eqn:Ep; [|discriminate]. inversion H; subst th'. clear H.
+  apply dest_binop_eq in E. destruct E as [T0 E]. apply mk_eq_shape in Ep. destruct Ep as [T' ->].
+  pose proof (wt_prop _ W) as Tp. pose proof (wt_prop _ W') as Tp'. cbn [prop] in Tp'. rewrite E in Tp.
+  assert (Hc : is_open_rec t1 0 = false /\ is_open_rec t2 0 = false).
+  { unfold checked_get_type in Tp. apply checked_comb in Tp. destruct Tp as [Ty [n1 [r1 [Hq [_ Hy]]]]].
+    apply checked_comb in Hq. destruct Hq as [Tx [n2 [r2 [_ [_ Hx]]]]].
+    split; [apply (checked_closed _ _ _ Hx) | apply (checked_closed _ _ _ Hy)]. }
+  destruct Hc as [Hc1 Hc2].
+  intros thT thS sigV sigS HV HS Hh. cbn [prop hyps] in *.
+  rewrite (holds_eq thT thS sigV sigS HV HS _ _ _ Tp'). apply V_eqb_eq.
+  unfold mk_lambda in E1, E2.
+  destruct x as [n T|n T| | | |]; try discriminate; cbn [var_name_ty] in E1, E2; unfold abstract_over in E1, E2; cbn [is_var_or_svar] in E1, E2.
+  - destruct (abstract_over_rec t1 0 (SVar n T)) as [b1|] eqn:Ea1; [|discriminate].
+    destruct (abstract_over_rec t2 0 (SVar n T)) as [b2|] eqn:Ea2; [|discriminate]. inversion E1; inversion E2; subst l1 l2.
+    cbn [Sem.eval snd]. f_equal. rewrite !map_map. apply map_ext_in. intros v Hv.
+    pose proof (abstract_over_svar_sem DC thT thS IC n T v sigV sigS _ 0 _ [] [] Ea1 Hc1 eq_refl) as Hs1.
+    pose proof (abstract_over_svar_sem DC thT thS IC n T v sigV sigS _ 0 _ [] [] Ea2 Hc2 eq_refl) as Hs2.
+    cbn [Datatypes.app] in Hs1, Hs2. rewrite Hs1, Hs2.
+    pose proof (val_ok_upd DC thT thS _ n T v HS Hv) as HS'.
+    assert (P : Sem.holds DC thT thS IC sigV (upd sigS n T v) (prop th) = true).
+    { apply (V thT thS sigV (upd sigS n T v) HV HS'). intros h Hin. unfold Sem.holds.
+      rewrite (eval_upd_svar DC thT thS IC n T v sigV sigS h [] (hyps_no_occ _ _ Eo h Hin)). apply Hh. exact Hin. }
+    rewrite E in P. rewrite (holds_eq thT thS sigV (upd sigS n T v) HV HS' _ _ _ Tp) in P. apply V_eqb_eq in P. exact P.
+  - destruct (abstract_over_rec t1 0 (Var n T)) as [b1|] eqn:Ea1; [|discriminate].
+    destruct (abstract_over_rec t2 0 (Var n T)) as [b2|] eqn:Ea2; [|discriminate]. inversion E1; inversion E2; subst l1 l2.
+    cbn [Sem.eval snd]. f_equal. rewrite !map_map. apply map_ext_in. intros v Hv.
+    pose proof (abstract_over_var_sem DC thT thS IC n T v sigV sigS _ 0 _ [] [] Ea1 Hc1 eq_refl) as Hs1.
+    pose proof (abstract_over_var_sem DC thT thS IC n T v sigV sigS _ 0 _ [] [] Ea2 Hc2 eq_refl) as Hs2.
+    cbn [Datatypes.app] in Hs1, Hs2. rewrite Hs1, Hs2.
+    pose proof (val_ok_upd DC thT thS _ n T v HV Hv) as HV'.
+    assert (P : Sem.holds DC thT thS IC (upd sigV n T v) sigS (prop th) = true).
+    { apply (V thT thS (upd sigV n T v) sigS HV' HS). intros h Hin. unfold Sem.holds.
+      rewrite (eval_upd_var DC thT thS IC n T v sigV sigS h [] (hyps_no_occ _ _ Eo h Hin)). apply Hh. exact Hin. }
+    rewrite E in P. rewrite (holds_eq thT thS (upd sigV n T v) sigS HV' HS _ _ _ Tp) in P. apply V_eqb_eq in P. exact P.
+Qed.
+
+(* forall_elim: the kernel only asks for get_type of the instance; typing of the
+   RESULT makes the instance well typed wherever it is actually used *)
+Lemma sound_forall_elim : forall s th th', wt th -> wfc th -> valid th ->
+  r_forall_elim s th = Some th' -> wt th' -> valid th'.
+Proof.
+  intros s th th' W C V H W'. unfold r_forall_elim in H.
+  destruct (dest_unop "all" (prop th)) as [l|] eqn:E; [|discriminate].
+  destruct l as [| | | |x U b|]; try discriminate.
+  destruct (get_type s) as [Ts|] eqn:Es; [|discriminate]. destruct (ty_eqb U Ts) eqn:EU; [|discriminate].
+  apply ty_eqb_eq in EU. subst Ts. inversion H; subst th'. clear H.
+  unfold dest_unop in E. destruct (prop th) as [| | |q a| |] eqn:Eprop; try discriminate.
+  destruct q as [| |nm T0| | |]; try discriminate. destruct (String.eqb nm "all") eqn:En; [|discriminate].
+  apply String.eqb_eq in En. subst nm. inversion E; subst a. clear E.
+  pose proof (wt_prop _ W) as Tp. pose proof (wt_prop _ W') as Tp'. cbn [prop] in Tp'. rewrite Eprop in Tp.
+  pose proof (wfc_prop _ C) as Cp. rewrite Eprop in Cp. cbn in Cp. apply andb_true_iff in Cp. destruct Cp as [Cp _].
+  destruct T0 as [| |n0 [|[| |n1 [|A r1]] r0]]; try discriminate. apply ty_eqb_eq in Cp.
+  assert (A = U).
+  { pose proof Tp as Tq. unfold checked_get_type in Tq. apply checked_comb in Tq. destruct Tq as [Ta [m [rest [Hc [_ Ha]]]]].
+    cbn [checked_get_type_rec] in Hc, Ha. rewrite Cp in Hc. unfold TFun in Hc. inversion Hc; subst.
+    destruct (checked_get_type_rec b [U]); [|discriminate]. unfold TFun in Ha. inversion Ha. reflexivity. }
+  subst A. rewrite Cp in *. clear Cp.
+  intros thT thS sigV sigS HV HS Hh. cbn [prop hyps] in *.
+  pose proof (V thT thS sigV sigS HV HS Hh) as P. rewrite Eprop in P.
+  rewrite (holds_all thT thS sigV sigS HV HS _ _ _ Tp) in P. rewrite forallb_forall in P.
+  unfold Sem.holds.
+  pose proof (subst_bound_sem DC thT thS IC sigV sigS b [] [] s) as Hs. cbn [Datatypes.app Datatypes.length] in Hs. rewrite Hs. clear Hs.
+  destruct (occ 0 b) eqn:Eo.
+  - destruct (subst_bound_typed_arg b 0 s [] BoolT Tp' eq_refl Eo) as [Ts Hts].
+    pose proof (checked_is_get _ _ _ Hts) as Hg. unfold get_type in Es. rewrite Es in Hg. inversion Hg; subst Ts.
+    destruct (eval_ty thT thS sigV sigS HV HS _ _ _ _ Hts (env_ok_nil thT thS)) as [H1 H2].
+    destruct (Sem.eval DC thT thS IC sigV sigS [] s) as [ss vs]. cbn [fst snd] in H1, H2. subst ss.
+    apply P. exact H2.
+  - destruct (Sem.dom DC (tysem thT thS U)) as [|v0 vs] eqn:Ed; [exfalso; apply (dom_nonempty DC _ Ed)|].
+    pose proof (not_occ_eval DC thT thS IC sigV sigS b [] (Sem.eval DC thT thS IC sigV sigS [] s) (tysem thT thS U, v0) [] Eo) as Hn.
+    cbn [Datatypes.app] in Hn. rewrite Hn.
+    apply P. left. reflexivity.
 Qed.
 
 End Sound.
